@@ -295,9 +295,11 @@ def is_valid_ip(ip: str) -> bool:
 
     Supports IPv4 and IPv6.
     """
-    if not ip or "\x00" in ip:
-        # getaddrinfo resolves empty strings to localhost, and truncates
-        # on zero bytes.
+    if not ip or "\x00" in ip or not ip.isascii():
+        # getaddrinfo resolves empty strings to localhost, truncates
+        # on zero bytes, and normalizes non-ASCII text through the IDNA
+        # codec first (so that e.g. superscript or fullwidth digits
+        # would be taken for an address).
         return False
     try:
         res = socket.getaddrinfo(
